@@ -24,6 +24,10 @@ pub struct Part {
     pub panic_prop: &'static str,
     /// per-case wall-clock cap in seconds (watchdog)
     pub case_cap_s: u64,
+    /// how long a case may run alone before it counts as not terminating (seconds); 0 = the default window.
+    /// Engines whose property promises bounded work per call (C13: a bounded number of paint nodes) set a
+    /// short window; where superlinear-but-terminating work is outside the property, the default stays.
+    pub hang_window_s: u64,
 }
 
 pub struct CheckDef {
@@ -603,14 +607,17 @@ pub fn drive(check: &CheckDef, opts: &DriverOpts) -> i32 {
                 if let Ok(mut g) = LAST_HANG_SITE.lock() {
                     *g = None;
                 }
-                match replay_in_subprocess(&path, part.case_cap_s * 10) {
+                let window = if part.hang_window_s > 0 { part.hang_window_s } else { hang_confirm_s() };
+                rp["hang_window_s"] = json!(window);
+                let _ = std::fs::write(&path, serde_json::to_string_pretty(&rp).unwrap_or_default());
+                match replay_in_subprocess(&path, part.case_cap_s * 10, window) {
                     ReplayResult::Reproduced => {
                         let site = LAST_HANG_SITE.lock().ok().and_then(|mut g| g.take());
                         let key = site.as_ref().map(|s| s.0.clone()).unwrap_or_else(|| "unknown".into());
                         if let Some((module, func)) = site {
                             viol.site_file = module.clone();
                             viol.message = format!("no progress in {module}");
-                            viol.detail = format!("{}; still running alone after {} s, spinning in {module} (sampled frame {func})", viol.detail, hang_confirm_s().max(part.case_cap_s * 10));
+                            viol.detail = format!("{}; still running alone after {} s, spinning in {module} (sampled frame {func})", viol.detail, window.max(part.case_cap_s * 10));
                             rp["violation"] = json!(viol);
                             let _ = std::fs::write(&path, serde_json::to_string_pretty(&rp).unwrap_or_default());
                         }
@@ -672,7 +679,7 @@ pub fn drive(check: &CheckDef, opts: &DriverOpts) -> i32 {
         let path = format!("{}/{}-{:016x}.json", replay_dir(), check.property, h);
         let _ = std::fs::write(&path, serde_json::to_string_pretty(&replay).unwrap_or_default());
         // confirm in a fresh process
-        let confirmed = replay_in_subprocess(&path, part.case_cap_s * 10);
+        let confirmed = replay_in_subprocess(&path, part.case_cap_s * 10, hang_confirm_s());
         match confirmed {
             ReplayResult::Reproduced => {
                 violations_reported += 1;
@@ -802,7 +809,7 @@ pub fn hang_confirm_s() -> u64 {
     std::env::var("VERIF_HANG_CONFIRM_S").ok().and_then(|s| s.parse().ok()).unwrap_or(1500)
 }
 
-pub fn replay_in_subprocess(path: &str, cap_s: u64) -> ReplayResult {
+pub fn replay_in_subprocess(path: &str, cap_s: u64, window_s: u64) -> ReplayResult {
     let exe = std::env::current_exe().expect("current_exe");
     let mut child = match Command::new(exe).arg("replay").arg(path).stdin(Stdio::null()).stdout(Stdio::piped()).stderr(Stdio::null()).spawn() {
         Ok(c) => c,
@@ -828,7 +835,7 @@ pub fn replay_in_subprocess(path: &str, cap_s: u64) -> ReplayResult {
                         *g = sample_hang_site(child.id());
                     }
                 }
-                if el > cap_s.max(hang_confirm_s()) {
+                if el > cap_s.max(window_s) {
                     // "loops without bound" is decided by a bound: no completion, alone, within this window
                     let _ = child.kill();
                     let _ = child.wait();
@@ -892,7 +899,7 @@ pub fn replay_main(path: &str, lookup: &dyn Fn(&str, &str) -> Option<(Box<dyn Sc
         if want.oracle == "hang" {
             // a reproducing hang never returns: a timer reports it (the driver's own confirmation kills the
             // subprocess earlier, after ten times the per-case cap)
-            let limit: u64 = hang_confirm_s();
+            let limit: u64 = v["hang_window_s"].as_u64().unwrap_or_else(hang_confirm_s);
             let prop = want.property.clone();
             let pth = path.to_string();
             std::thread::spawn(move || {
